@@ -136,9 +136,10 @@ def ids_for(rng, feats, shaped=False):
     return ["f%d" % i for i in range(len(feats))]
 
 
-def gff3(feats, ids, parents=None, same_source=False):
+def gff3(feats, ids, parents=None, same_source=False, frames=None):
     """One line per row.  ids[i] None = a line without ID attribute (gffutils generates the id); same_source = every line
-    carries the same source column (so that rows equal in the five model columns are equal in all nine columns)."""
+    carries the same source column (so that rows equal in the five model columns are equal in all nine columns);
+    frames[i] = the 8th column of row i ('0', '1', '2' or '.'; default '.')."""
     lines = []
     for i, (r, fid) in enumerate(zip(feats, ids)):
         attrs = [] if fid is None else ["ID=%s" % fid]
@@ -146,8 +147,8 @@ def gff3(feats, ids, parents=None, same_source=False):
             attrs.append("Parent=" + ",".join(parents[i]))
         if not attrs:
             attrs.append("note=dup")
-        lines.append("\t".join([r[0], "src" if same_source else "src%d" % (i % 2), r[2], str(r[3]), str(r[4]), ".", r[1], ".",
-                                ";".join(attrs)]))
+        lines.append("\t".join([r[0], "src" if same_source else "src%d" % (i % 2), r[2], str(r[3]), str(r[4]), ".", r[1],
+                                frames[i] if frames else ".", ";".join(attrs)]))
     return "\n".join(lines) + "\n"
 
 
@@ -336,3 +337,57 @@ def grouped_db_feats(rng):
                 s = e + rng.randrange(2, 8) if r < 0.45 else e + 1 if r < 0.6 else rng.randrange(s + 1, e + 2)
     rng.shuffle(out)
     return out
+
+
+# -- the frame column (8th) varies inside a run ---------------------------------------------------------------------------
+FRAMES = ["0", "1", "2", "."]
+
+
+def frame_series(rng, n):
+    """n frame values: cycling 0/2/1 (overlapping CDS pieces of alternative transcripts), random, constant with a late change,
+    '.' mixed with one digit, or (control) constant."""
+    r = rng.random()
+    if r < 0.3:
+        cyc = rng.choice([["0", "2", "1"], ["0", "1", "2"], ["2", "0", "1"]])
+        k = rng.randrange(3)
+        return [cyc[(k + i) % 3] for i in range(n)]
+    if r < 0.55:
+        return [rng.choice(FRAMES) for _ in range(n)]
+    if r < 0.7:
+        a, b = rng.sample(FRAMES, 2)
+        cut = rng.randrange(1, n) if n > 1 else 1
+        return [a if i < cut else b for i in range(n)]
+    if r < 0.9:
+        d = rng.choice(["0", "1", "2"])
+        k = rng.randrange(2)
+        return ["." if (i + k) % 2 else d for i in range(n)]
+    return [rng.choice(FRAMES)] * n
+
+
+def framed_feats(rng, distinct_starts=False):
+    """-> (rows, frames).  1..3 (seqid, strand, type) groups, each contiguous and start-ordered: 2..7 pieces that overlap (55%),
+    touch (15%) or leave a gap (30%), so that most groups hold runs of three and more members; the frame column follows
+    frame_series per group (it varies INSIDE the runs)."""
+    labels = []
+    for _ in range(rng.choice([1, 1, 2, 3])):
+        lab = [rng.choice(SEQIDS), rng.choice(STRANDS), rng.choice(["CDS", "CDS", "exon"])]
+        if lab not in labels:
+            labels.append(lab)
+    labels.sort()
+    off = rng.choice([0, 0, 0, 131060, 2 ** 20 - 20])
+    rows, frames = [], []
+    for lab in labels:
+        n = rng.randrange(2, 8)
+        s = off + rng.randrange(1, 10)
+        for k in range(n):
+            e = s + rng.choice([0, 2, 4, 9, 14])
+            rows.append(lab + [s, e])
+            r = rng.random()
+            if r < 0.55:
+                s = rng.randrange(s + 1 if distinct_starts else s, e + 2) if e >= s else s + 1
+            elif r < 0.7:
+                s = e + 1
+            else:
+                s = e + rng.randrange(2, 8)
+        frames.extend(frame_series(rng, n))
+    return rows, frames
